@@ -1,7 +1,7 @@
 //! C10 — channel ids: unique among open channels, within 1..=channel_max, reusable.
 
 use crate::gen::pick;
-use crate::run::{catch, Outcome, Part, PartDyn, Tier};
+use crate::run::{catch, take_panics, Outcome, Part, PartDyn, Tier};
 use amiquip::verif::SlotsProbe;
 use amiquip::Error;
 use proptest::collection::vec;
@@ -415,6 +415,224 @@ fn fuzz_case(mut c: Case) -> Case {
     c
 }
 
+// ---------------------------------------------------------------------------------------------
+// end to end: the same op language through Connection::open_channel / Channel::close / drop /
+// server-initiated channel close, with small negotiated channel_max
+
+#[derive(Clone, Debug, Serialize, Deserialize, PartialEq)]
+pub enum EOp {
+    OpenExplicit(IdSel),
+    OpenAuto,
+    /// Channel::close on the k-th open channel (picked)
+    Close(u16),
+    /// drop the k-th open channel (implicit close)
+    Drop(u16),
+    /// the server closes the k-th open channel
+    ServerClose(u16),
+}
+
+#[derive(Clone, Debug, Serialize, Deserialize, PartialEq)]
+pub struct ECase {
+    pub channel_max: u8,
+    pub ops: Vec<EOp>,
+}
+
+pub fn exec_e2e(c: &ECase) -> Outcome {
+    use crate::broker::{AutoBroker, ServerCfg};
+    use crate::session::{open_session, timed, ClientCfg, CALL_TIMEOUT};
+    use amq_protocol::frame::AMQPFrame;
+    use amq_protocol::protocol::channel::AMQPMethod as Chan;
+    use amq_protocol::protocol::{channel, AMQPClass};
+    let max = (c.channel_max % 8 + 1) as u16;
+    let scfg = ServerCfg {
+        channel_max: max,
+        ..Default::default()
+    };
+    let mut sess = open_session(&ClientCfg::default(), scfg, vec![], AutoBroker::new(4));
+    let mut conn = match sess.conn.take() {
+        Some(c) => c,
+        None => {
+            let _ = sess.broker.stop();
+            return Outcome {
+                inconclusive: Some(format!("open failed {:?}", sess.open_error)),
+                ..Default::default()
+            };
+        }
+    };
+    let wire = sess.wire.clone();
+    let bh = std::sync::Arc::new(sess.broker);
+    let bh2 = bh.clone();
+    let case = c.clone();
+    let res = timed(CALL_TIMEOUT * 3, "avh-c10-e2e", move || -> Result<(bool, bool, Vec<u16>), (String, String)> {
+        let mut model = Model {
+            max,
+            open: BTreeSet::new(),
+            freed: Vec::new(),
+        };
+        let mut chans: Vec<amiquip::Channel> = Vec::new();
+        let mut opened_ids: Vec<u16> = Vec::new();
+        let (mut mixed, mut exhausted, mut any_free, mut explicit, mut auto) = (false, false, false, false, false);
+        for (step, op) in case.ops.iter().enumerate() {
+            let ctx = |m: String| format!("channel_max={} step {} of {:?}: {}", max, step, case.ops, m);
+            match op {
+                EOp::OpenExplicit(sel) => {
+                    let id = model.resolve(sel);
+                    explicit = true;
+                    if any_free && auto {
+                        mixed = true;
+                    }
+                    let should = id >= 1 && id <= max && !model.open.contains(&id);
+                    match (should, conn.open_channel(Some(id))) {
+                        (true, Ok(ch)) => {
+                            if ch.channel_id() != id {
+                                return Err(("explicit-open-returned-other-id".into(), ctx(format!("open_channel(Some({})) returned channel {}", id, ch.channel_id()))));
+                            }
+                            model.open.insert(id);
+                            opened_ids.push(id);
+                            chans.push(ch);
+                        }
+                        (true, Err(e)) => return Err(("explicit-open-refused-available-id".into(), ctx(format!("open_channel(Some({})) failed: {:?}", id, e)))),
+                        (false, Ok(ch)) => {
+                            let sig = if id == 0 { "id-0-handed-out" } else if id > max { "id-above-channel-max-handed-out" } else { "open-id-handed-out-twice" };
+                            return Err((sig.into(), ctx(format!("open_channel(Some({})) returned channel {}", id, ch.channel_id()))));
+                        }
+                        (false, Err(Error::UnavailableChannelId { channel_id })) if channel_id == id => {}
+                        (false, Err(e)) => return Err(("explicit-open-wrong-error".into(), ctx(format!("open_channel(Some({})) failed with {:?}", id, e)))),
+                    }
+                }
+                EOp::OpenAuto => {
+                    auto = true;
+                    if any_free && explicit {
+                        mixed = true;
+                    }
+                    let room = (model.open.len() as u16) < max;
+                    if !room {
+                        exhausted = true;
+                    }
+                    match (room, conn.open_channel(None)) {
+                        (true, Ok(ch)) => {
+                            let id = ch.channel_id();
+                            if id == 0 || id > max || model.open.contains(&id) {
+                                return Err(("open-id-handed-out-twice".into(), ctx(format!("open_channel(None) returned {} (open: {:?})", id, model.open))));
+                            }
+                            model.open.insert(id);
+                            opened_ids.push(id);
+                            chans.push(ch);
+                        }
+                        (true, Err(e)) => return Err(("auto-open-refused-although-ids-free".into(), ctx(format!("open_channel(None) failed: {:?} with {} of {} open", e, model.open.len(), max)))),
+                        (false, Ok(ch)) => return Err(("open-id-handed-out-twice".into(), ctx(format!("open_channel(None) returned {} although all ids are open", ch.channel_id())))),
+                        (false, Err(Error::ExhaustedChannelIds)) => {}
+                        (false, Err(e)) => return Err(("auto-open-wrong-error".into(), ctx(format!("{:?}", e)))),
+                    }
+                }
+                EOp::Close(k) | EOp::Drop(k) | EOp::ServerClose(k) => {
+                    if chans.is_empty() {
+                        continue;
+                    }
+                    let i = pick(*k, chans.len());
+                    let ch = chans.remove(i);
+                    let id = ch.channel_id();
+                    match op {
+                        EOp::Close(_) => {
+                            if let Err(e) = ch.close() {
+                                return Err(("channel-close-failed".into(), ctx(format!("close of channel {}: {:?}", id, e))));
+                            }
+                        }
+                        EOp::Drop(_) => drop(ch),
+                        _ => {
+                            bh2.cmd(move |_b, io| {
+                                io.send_method(
+                                    id,
+                                    AMQPClass::Channel(Chan::Close(channel::Close {
+                                        reply_code: 406,
+                                        reply_text: "closed by server".into(),
+                                        class_id: 0,
+                                        method_id: 0,
+                                    })),
+                                );
+                            });
+                            // the next call on it reports the close; then the handle goes away
+                            match ch.qos(0, 0, false) {
+                                Err(Error::ServerClosedChannel { channel_id, .. }) if channel_id == id => {}
+                                other => return Err(("server-close-not-reported".into(), ctx(format!("call on channel {} after the server closed it: {:?}", id, other)))),
+                            }
+                            drop(ch);
+                        }
+                    }
+                    model.open.remove(&id);
+                    model.freed.push(id);
+                    any_free = true;
+                }
+            }
+        }
+        drop(chans);
+        conn.close().map_err(|e| ("connection-failed".to_string(), format!("{:?}", e)))?;
+        Ok((mixed, exhausted, opened_ids))
+    });
+    let io = wire.io_thread();
+    let (_b, bio) = match std::sync::Arc::try_unwrap(bh) {
+        Ok(b) => b.stop(),
+        Err(_) => {
+            wire.push_eof();
+            return Outcome::hang("open-channel-hang", format!("channel_max={}: a call did not return: {:?}", max, c.ops));
+        }
+    };
+    if let Some(t) = io {
+        let p = take_panics(t);
+        if !p.is_empty() {
+            return Outcome::fail("io-thread-panic", format!("{} at {}", p[0].message, p[0].location));
+        }
+    }
+    let (mixed, exhausted, opened) = match res {
+        None => {
+            wire.push_eof();
+            return Outcome::hang("open-channel-hang", format!("channel_max={}: a call did not return: {:?}", max, c.ops));
+        }
+        Some(Err((s, m))) => return Outcome::fail(s, m),
+        Some(Ok(x)) => x,
+    };
+    // the Channel.Open frames on the wire carry exactly the returned ids, in order
+    let wire_ids: Vec<u16> = bio
+        .seen
+        .iter()
+        .filter_map(|f| match f {
+            AMQPFrame::Method(ch, AMQPClass::Channel(Chan::Open(_))) => Some(*ch),
+            _ => None,
+        })
+        .collect();
+    if wire_ids != opened {
+        return Outcome::fail("channel-open-frames-differ-from-returned-ids", format!("wire {:?}, returned {:?}", wire_ids, opened));
+    }
+    let mut o = Outcome::pass(mixed || exhausted);
+    if mixed {
+        o.labels.push("explicit+auto-after-free".into());
+    }
+    if exhausted {
+        o.labels.push("exhausted".into());
+    }
+    o
+}
+
+fn estrat(_t: Tier) -> BoxedStrategy<ECase> {
+    let sel = prop_oneof![
+        1 => Just(IdSel::Zero),
+        1 => Just(IdSel::One),
+        1 => Just(IdSel::Max),
+        1 => Just(IdSel::MaxPlus1),
+        2 => any::<u16>().prop_map(IdSel::Open),
+        3 => any::<u16>().prop_map(IdSel::Freed),
+        3 => (0u16..10).prop_map(IdSel::Any),
+    ];
+    let op = prop_oneof![
+        4 => sel.prop_map(EOp::OpenExplicit),
+        6 => Just(EOp::OpenAuto),
+        2 => any::<u16>().prop_map(EOp::Close),
+        2 => any::<u16>().prop_map(EOp::Drop),
+        2 => any::<u16>().prop_map(EOp::ServerClose),
+    ];
+    (any::<u8>(), vec(op, 1..60)).prop_map(|(channel_max, ops)| ECase { channel_max, ops }).boxed()
+}
+
 pub fn parts() -> Vec<Box<dyn PartDyn>> {
     vec![Box::new(Part::<Case> {
         name: "model",
@@ -427,5 +645,17 @@ pub fn parts() -> Vec<Box<dyn PartDyn>> {
         shrink_budget: 3000,
         confirm_runs: 1,
             fuzz: Some(fuzz_case),
+    }),
+    Box::new(Part::<ECase> {
+        name: "e2e",
+        rule: "the same op language through the public API on the mock transport: channel_max 1-8 negotiated in the handshake, up to 59 ops (open_channel(Some(id)) with boundary / open / freed ids, open_channel(None), Channel::close, drop, server-initiated channel close); oracle: the BTreeSet model after every op (returned id, UnavailableChannelId / ExhaustedChannelIds), every call returns, no I/O-thread panic, the Channel.Open frames on the wire carry exactly the returned ids, the session closes Ok; non-trivial = explicit and automatic allocation mixed after a free, or id space exhausted; distinct by case hash",
+        cases: |t| t.pick(1500, 30_000),
+        threads: 16,
+        strategy: estrat,
+        exec: exec_e2e,
+        enumerate: None,
+        shrink_budget: 200,
+        confirm_runs: 2,
+        fuzz: None,
     })]
 }
